@@ -232,7 +232,7 @@ theorem never_touches_freed (c : Cfg) (hc : c.WF) {s : State} (h : Reach c s) (i
   exact ⟨I.r_free i, fun p hp => (I.pos_safe hp).1⟩
 
 /-- the inductive step, exported for the audit -/
-theorem inv_step' (c : Cfg) (hc : c.WF) {s s' : State} {l : Label} (h : Inv c s)
+theorem inv_step_wf (c : Cfg) (hc : c.WF) {s s' : State} {l : Label} (h : Inv c s)
     (st : step c s l = some s') : Inv c s' := inv_step c hc h st
 
 /-! ## Non-vacuity: concrete runs of the executable model (hypotheses are satisfiable) -/
